@@ -80,8 +80,14 @@ func (l *LeafDesc) Build() any {
 	case "bool":
 		return l.B
 	}
+	if f, ok := extraLeaf[l.Tag]; ok {
+		return f(l)
+	}
 	return l.S
 }
+
+// extraLeaf lets monitors register further leaf tags.
+var extraLeaf = map[string]func(*LeafDesc) any{}
 
 // UserOp is a user-defined Operator.
 type UserOp struct{ Txt, Ctx string }
